@@ -36,7 +36,7 @@ def run_seed(sd):
         res = {}
 
         def one(p):
-            env = dict(os.environ, CALLOOP_REPO=tmp, VERIF_EVIDENCE_DIR=os.path.join(tmp, 'evidence'), VERIF_BUILD_DIR=os.path.join(tmp, 'build'), VERIF_REPLAY_DIR=os.path.join(tmp, 'replay'), VERIF_JOBS='4', VERIF_DIAG='1', VERIF_NO_SELFTEST='1')
+            env = dict(os.environ, CALLOOP_REPO=tmp, VERIF_EVIDENCE_DIR=os.path.join(tmp, 'evidence'), VERIF_BUILD_DIR=os.path.join(tmp, 'build'), VERIF_REPLAY_DIR=os.path.join(tmp, 'replay'), VERIF_JOBS='4', VERIF_DIAG='1', VERIF_DIAG_KANI='1', VERIF_NO_SELFTEST='1')
             o = subprocess.run([os.path.join(ROOT, 'check'), p], capture_output=True, text=True, env=env)
             viol = [l for l in o.stdout.splitlines() if l.startswith('VIOLATION')]
             und = [l for l in o.stdout.splitlines() if l.startswith('UNDECIDED') and 'tier=' not in l]
